@@ -6,6 +6,7 @@ import QcelVerif.Props.C02Pc2014
 import QcelVerif.Props.C02Pc2018
 import QcelVerif.Props.C02Ctx2014
 import QcelVerif.Props.C02Ctx2018
+import QcelVerif.Props.C02Dec
 /-!
 # C02 — CODATA constants are exact; derived QC aliases follow their definitions (index)
 
@@ -16,8 +17,18 @@ import QcelVerif.Props.C02Ctx2018
    `legacy_derived_2018`, `attrs_and_floats_2014/2018`;
  * **general**: `Constants.get_case_insensitive`, `Constants.get_is_item_lower`.
 
-Not proved (partial): general per-operation error bounds for `Dec.mul/div`
--- FULL: ∀ a b, |val (mul a b) − val a · val b| ≤ 5·10⁻²⁸ · |val a · val b|  (and likewise div, add, sub);
-instead the bound 2·10⁻²⁷ is kernel-checked on every alias and derived constant of both sets
-(`aliasClose`), and 24 of the 27 aliases are shown to be exact.
+General error bounds of the decimal model (`Props/C02Dec.lean`, all operands, no table):
+`Dec.mul_rel_err`, `Dec.div_rel_err`, `Dec.add_rel_err`, `Dec.sub_rel_err`
+(`|val (op a b) − exact| ≤ 5·10⁻²⁸·|exact|`; only a zero divisor is excluded and it is refused),
+the exactness theorems `Dec.mul_exact/add_exact/sub_exact/div_exact`, and the composed bound
+`Constants.evalDec_rel_err` for every alias formula over ARBITRARY constant values, from which the
+`2·10⁻²⁷` of `aliasClose` follows (`aliasClose_of_aliasOk`, shipped instances `aliases_close_2014/2018`,
+`derived_close_2018`).  This closes the former `FULL:` gap of this file (until the wave-1 extension the
+2·10⁻²⁷ bound was only kernel-checked per table row; that check is kept).
+
+Still not proved in general (partial): `float(Decimal)` is the nearest double
+-- FULL: ∀ d, ∀ double y, |val d − f64Val (toF64 d)| ≤ |val d − y|
+it is kernel-checked (`nearestOk`: neither neighbouring double is closer, ties to even) for every
+entry of both shipped contexts (`attrs_and_floats_2014/2018`) and compared bit for bit with CPython
+on a random stream.  The exponent limits Emin/Emax of the decimal context are not modelled.
 -/
